@@ -264,6 +264,62 @@ pub fn check_proposal<F, N>(wd: &mut World, r: &mut Reporter, q: &Req, v: &View,
     out
 }
 
+/// The proposal type's own double-spend guards, exercised on material the wallet produced: a
+/// proposal in which two steps name the same on-chain note or coin, or the same output of an
+/// earlier step, must be refused both by the constructor (`Proposal::multi_step`) and by the
+/// protobuf decoding path that rebuilds a proposal from the wallet database
+/// (`try_into_standard_proposal`); moving a consuming step in front of its source must be refused too.
+pub fn constructor_guards(wd: &mut World, r: &mut Reporter, q: &Req, p: &crate::req::NoteProposal) {
+    use nonempty::NonEmpty;
+    use zcash_client_backend::proposal::Proposal;
+    let steps: Vec<_> = p.steps().iter().cloned().collect();
+    let on_chain = |s: &zcash_client_backend::proposal::Step<_>| !s.transparent_inputs().is_empty() || s.shielded_inputs().map_or(false, |i| !i.notes().is_empty());
+    let mk = |v: Vec<zcash_client_backend::proposal::Step<_>>| Proposal::multi_step(p.fee_rule().clone(), p.min_target_height(), p.confirmations_policy(), NonEmpty::from_vec(v).unwrap());
+    // (1) a step that spends on-chain inputs, appended once more
+    if let Some(dup) = steps.iter().find(|s| on_chain(s)).cloned() {
+        let mut v = steps.clone();
+        v.push(dup);
+        r.count("constructor_guard_chain_double_spend_probes", 1);
+        match vh_common::guard(|| mk(v.clone())) {
+            Ok(Err(_)) => {}
+            Ok(Ok(_)) => viol(wd, r, Some(q), "C08:multi_step:accepts-on-chain-input-named-by-two-steps", format!("Proposal::multi_step accepted {} steps of which the last repeats an earlier step's on-chain inputs", v.len())),
+            Err(pn) => viol(wd, r, Some(q), &format!("C08:multi_step:panic:{}", vh_common::panic_class(&pn)), pn),
+        }
+        // the same through the protobuf form, decoded against the wallet database
+        let mut proto = zcash_client_backend::proto::proposal::Proposal::from_standard_proposal(p);
+        if let Some(ps) = proto.steps.iter().find(|s| s.inputs.iter().any(|i| matches!(i.value, Some(zcash_client_backend::proto::proposal::proposed_input::Value::ReceivedOutput(_))))).cloned() {
+            proto.steps.push(ps);
+            r.count("constructor_guard_proto_double_spend_probes", 1);
+            let net = wd.sim.net;
+            match vh_common::guard(|| proto.try_into_standard_proposal(&net, wd.w.db.db()).map(|_| ()).map_err(|e| format!("{e:?}"))) {
+                Ok(Err(_)) => {}
+                Ok(Ok(())) => viol(wd, r, Some(q), "C08:proposal-decoding:accepts-on-chain-input-named-by-two-steps", "try_into_standard_proposal rebuilt a proposal whose last step repeats an earlier step's on-chain inputs".into()),
+                Err(pn) => viol(wd, r, Some(q), &format!("C08:proposal-decoding:panic:{}", vh_common::panic_class(&pn)), pn),
+            }
+        }
+    }
+    // (2) a step consuming an earlier step's output, appended once more / moved to the front
+    if let Some((i, cons)) = steps.iter().enumerate().find(|(_, s)| !s.prior_step_inputs().is_empty()).map(|(i, s)| (i, s.clone())) {
+        let mut v = steps.clone();
+        v.push(cons.clone());
+        r.count("constructor_guard_step_double_spend_probes", 1);
+        match vh_common::guard(|| mk(v.clone())) {
+            Ok(Err(_)) => {}
+            Ok(Ok(_)) => viol(wd, r, Some(q), "C08:multi_step:accepts-prior-step-output-consumed-twice", format!("Proposal::multi_step accepted a proposal in which step {i}'s reference to an earlier output is repeated by an appended step")),
+            Err(pn) => viol(wd, r, Some(q), &format!("C08:multi_step:panic:{}", vh_common::panic_class(&pn)), pn),
+        }
+        let mut v = steps.clone();
+        let c = v.remove(i);
+        v.insert(0, c);
+        r.count("constructor_guard_forward_reference_probes", 1);
+        match vh_common::guard(|| mk(v.clone())) {
+            Ok(Err(_)) => {}
+            Ok(Ok(_)) => viol(wd, r, Some(q), "C08:multi_step:accepts-forward-reference", format!("Proposal::multi_step accepted step {i} moved in front of the step whose output it consumes")),
+            Err(pn) => viol(wd, r, Some(q), &format!("C08:multi_step:panic:{}", vh_common::panic_class(&pn)), pn),
+        }
+    }
+}
+
 /// Records the locks a successful proposal with a lock request took.
 pub fn apply_lock_request(wd: &mut World, q: &Req, target: u32, inputs: &[Vec<InKey>]) {
     if let Some((o, blocks)) = q.lock_req {
